@@ -364,6 +364,15 @@ pub fn build_call(xid: u32, rpcvers: u32, prog: u32, vers: u32, proc_: u32, cred
     v
 }
 
+/// A call whose credential and verifier carry the given authentication flavors.
+pub fn build_call_flavors(xid: u32, prog: u32, vers: u32, proc_: u32, cflavor: u32, cred: &[u8], vflavor: u32, verf: &[u8]) -> Vec<u8> {
+    let mut v = build_call(xid, 2, prog, vers, proc_, cred, verf);
+    v[24..28].copy_from_slice(&cflavor.to_be_bytes());
+    let o = 32 + cred.len();
+    v[o..o + 4].copy_from_slice(&vflavor.to_be_bytes());
+    v
+}
+
 /// The call split into record fragments at the given payload offsets (last one marked last).
 pub fn with_fragments(body: &[u8], cuts: &[usize]) -> Vec<u8> {
     let mut v = Vec::new();
